@@ -219,6 +219,13 @@ func runC18(c *core.Ctx) {
 		c.Note("nodifyPackage exception not granted: %s", why)
 	}
 	n := ruleUncheckedAssertions(c, "C18.total", "meta/idl", allowed)
+	ruleIndexResultChecked(c, "C18.total", "meta/idl", "meta/signature")
+	c.Doc("C18.builders", "a node builder that constructs a composite type yields it on every successful path", 3)
+	ruleBuildersBuildOneKind(c, "C18.builders", "meta/idl")
+	// the IDL printer and parser go through signature.Parse for every type: a Parse that
+	// keeps state between calls hands out type objects that an earlier generation renamed
+	c.Doc("C09.parse", "signature.Parse keeps no package state besides the grammar (rule shared with C09)", 3)
+	ruleParseEntry(c)
 	c.Doc("C18.ids", "an action's explicit uid is kept by the parser: an id is only assigned where none was given", 1)
 	ruleExplicitIDsKept(c)
 	c.Pass("C18.total", "unchecked-assertions", token.NoPos, fmt.Sprintf("%d unchecked assertions on parser nodes examined", n))
